@@ -47,7 +47,7 @@ CHECKS.update({
                 text="Static panic-freedom argument for everything reachable from the host API (every Assert terminator and panicking-std call "
                      "must be discharged by a protocol precondition, a size-like/constant argument, a dominating guard, or a vetted invariant row "
                      "whose invariant is another rule's obligation), arithmetic on host-controlled numerals via inter-procedural taint, bounded "
-                     "native recursion via call-graph cycles, errors lead to Idle via post-dominance.",
+                     "native recursion via call-graph cycles, errors lead to Idle via post-dominance, stop / break leave the interpreter Idle on every path.",
                 note="Not a proof: non-local callees outside the panicking-API table are assumed not to panic (listed in evidence); heap "
                      "exhaustion is out of scope. F12a/b (unbounded parser recursion) were repaired in /repo (depth counter); the recursion rule stays armed.", ref="4/C01"),
     "C02": dict(level="other", technique="grammar / operator / typing table extraction from MIR (skeletons, path enumeration over discriminants) vs the stated rules",
@@ -56,7 +56,9 @@ CHECKS.update({
                 note="IEEE-754 results, str ordering and f64 Display are std semantics (trusted); no expression is evaluated.", ref="4/C02"),
     "C03": dict(level="other", technique="structural necessary conditions on MIR (iteration order, immutability by effect analysis, comparison shapes, resume rule)",
                 text="Necessary conditions only for the mechanisms the property names: DATA scan order and cursor monotonicity, FOR limit/step "
-                     "immutability, FOR body runs once, NEXT exit comparison and forgetting, defaults, sequencing, GOSUB return location, resume rule.",
+                     "immutability, FOR body runs once, NEXT exit comparison and forgetting, defaults, sequencing, GOSUB return location, resume rule, READ target by "
+                     "target, last DEF wins, PRINT separator flag, colon ends a skipped THEN clause, errors located before they reach the host, and C02's "
+                     "operator-semantics rules as shared necessary conditions.",
                 note="Differential equality with a reference interpreter is not decidable by this family and is NOT claimed; only the listed "
                      "structural clauses are decided.", ref="4/C03"),
     "C05": dict(level="other", technique="panic-site inventory on analyzer roots + constant-propagating path enumeration of the per-line loop (INV-MAP)",
